@@ -346,7 +346,19 @@ def selfref_catalogue():
                 '(deftemplate a () (x (%s a) (%s a))) (%s a)' % (sp, sp, sp),
                 '(deftemplate a (v) (%s a $v)) (%s a 1)' % (sp, sp),
                 '(deftemplate a (v) $v) (%s a (%s a 1))' % (sp, sp),
-                '(deftemplate a () (if-equal 1 1 (%s a))) (%s a)' % (sp, sp)]
+                '(deftemplate a () (if-equal 1 1 (%s a))) (%s a)' % (sp, sp),
+                # a call put together at expansion time: the head from a parameter, from a conditional, growing per round
+                '(deftemplate a (x) ($x a $x)) (%s a %s)' % (sp, sp),
+                '(deftemplate a (x) ($x a $x) ($x a $x)) (%s a %s)' % (sp, sp),
+                '(deftemplate a (x) ((if-equal k k %s) a $x)) (%s a k)' % (sp, sp),
+                '(deftemplate a (x y) ($x $y $x $y)) (%s a %s a)' % (sp, sp),
+                '(deftemplate b (x) $x) (deftemplate a (x) ((%s b $x) a $x)) (%s a %s)' % (sp, sp, sp)]
+    # degenerate lists inside items that index what they were given: an empty action list, a modifier prefix on nothing
+    for it in ('(tap-dance 200 ())', '(tap-dance-eager 200 ())', '(macro C-S-())', '(macro C-())', '(multi)', '(fork a b ())',
+               '(switch)', '(switch ())', '(one-shot 100 (multi))', '(tap-hold 1 1 (multi) (multi))', '(chord)', '(unmod)', '(unicode)'):
+        out.append('(defalias kvx %s)' % it)
+    for sq in ('(C-S-())', '(C-S- ())', '(S-())', '(O-())', '(O-(a))', '(C-O-(a b))', '(S-(a) C-())', '()'):
+        out.append('(defvirtualkeys kvv x) (defseq kvv %s)' % sq)
     # the include form in every place that reads one (top level, defchordsv2): no name, a list, a missing file, a file of the
     # wrong kind (lines without a tab)
     for inc in ('(include)', '(include (a))', '(include nofile-kv.txt)', '(include "no file.kbd")', '(include a b)',
